@@ -610,7 +610,7 @@ def run(ctx, only_cases=None):
         cases += covering_entry_cases()
         cases += near_miss_cases()
         # concurrent phase 1 on 16 connections + concurrent GenerateChallenge: all challenges pairwise distinct (Go-side predicate only)
-        cases += [{"race": [16, 12 if thorough else 4], "slots": [], "addrs": [], "ops": []} for _ in range(6 if thorough else 3)]
+        cases += [{"race": [16, 16 if thorough else 8], "slots": [], "addrs": [], "ops": []} for _ in range(8 if thorough else 4)]
         cases += v6_list_cases()
         cases += perm_ban_cases()
         cases += reban_cases(12 if thorough else 4)
